@@ -9,9 +9,20 @@ interp cases: interpolate_modes(qha_input, v_array, method, order) on analytic m
   (3) Gamma acoustic slots exactly 0 in all three arrays;
   (4) each (q,m) slot belongs to its own law (distinct law per slot; square (3,3) shape makes [m,q] legal);
   (5) no NaN / inf anywhere on the grid, no exception.
+  The lattice also carries unit scales (frequency x1e-3/x1e3, volume in A^3 / x1e3: gamma and V dgamma/dV are
+  scale-free, omega scales), corner shapes (Gamma only; n_p = 3, i.e. nothing but acoustic modes at Gamma) and
+  the spelling of the Gamma acoustic residuals.  Mode branches of one q-point cross between sampled volumes.
 plot cases: the real Calculator._interpolate_modes wiring on a duck `self`, then
   ModePlotter(duck).plot_modes(recording_axes, n, iq): y-data for n = 0,1,2 are omega, gamma, V dgamma/dV.
+history cases (mode B): sequences of interpolate_modes calls inside ONE process over an alphabet of call
+  descriptions (same input / other grid / other method / other input of the same shape / other shape and unit /
+  the SAME object refilled in place / objects created and released so that addresses are re-used); every call is
+  held to the per-call oracle for ITS arguments, the inputs are unchanged by the call, results handed out earlier
+  do not change later (the caller overwrites its own copies in between), and nothing returned aliases anything.
+plotseq cases (mode B): sequences of plot_modes(n, iq) on ONE ModePlotter and ONE recording axes.
 """
+import gc
+import itertools
 from collections import OrderedDict
 from types import SimpleNamespace
 
@@ -38,6 +49,13 @@ NODE_BASED = ("lagrange", "krogh", "pchip", "akima", "hermite")
 MO = [["spline", k] for k in (2, 3, 4, 5)] + [[m, o] for m in NODE_BASED for o in (2, 3, 6)] + \
      [["lsq_poly", k] for k in (1, 2, 3, 4, 5)]
 DATA = [["power", 0], ["morse", 0]] + [["poly", d] for d in (1, 2, 3, 4, 5)]
+
+SCALE_DIMS = OrderedDict([               # crossed with a reduced core in quick, with everything in thorough
+    ("wscale", [1.0, 1e-3, 1e3]),
+    ("vscale", [1.0, R.ANG3_PER_BOHR3, 1e3]),
+    ("acoustic", ["mixed", "positive"]),
+])
+CORNER_SHAPES = [[1, 6], [2, 3], [1, 3]]  # Gamma only; only acoustic modes at Gamma; both (nothing to interpolate)
 
 DIMS = OrderedDict([
     ("mo", [["lsq_poly", 3]] + [x for x in MO if x != ["lsq_poly", 3]]),     # shipped default first
@@ -99,22 +117,38 @@ def _fmt(x):
 
 # =========================================================================== interp cases
 
+def build(case):
+    """(plain input, laws, sampled volumes, V0, evaluation grid) of a case / call description."""
+    nq, npm = case["shape"]
+    kind, degree = case["data"]
+    inp, laws, vols, v0 = R.build_input(case["nv"], nq, npm, kind, degree,
+                                        wscale=case.get("wscale", 1.0), vscale=case.get("vscale", 1.0),
+                                        acoustic=case.get("acoustic", "mixed"), offset=case.get("offset", 0))
+    v = R.v_grid(case["vkind"], vols, n=case.get("ntv", R.N_GRID))
+    return inp, laws, vols, v0, v
+
+
 def run_interp(case):
     from cij.core.mode_gamma import interpolate_modes
     method, order = case["mo"]
-    kind, degree = case["data"]
-    nq, npm = case["shape"]
-    nv = case["nv"]
-    inp, laws, vols, v0 = R.build_input(nv, nq, npm, kind, degree)
-    v = R.v_grid(case["vkind"], vols)
-    viol = []
+    inp, laws, vols, v0, v = build(case)
     try:
         with numpy.errstate(all="ignore"):
             res = interpolate_modes(real_input(inp), v.copy(), method=method, order=order)
     except Exception as e:
         return {"viol": [V(f"c11:{method}:raises:{type(e).__name__}",
-                           f"interpolate_modes(method={method!r}, order={order}) on {nv} volumes raised {type(e).__name__}: {str(e)[:160]}")],
+                           f"interpolate_modes(method={method!r}, order={order}) on {case['nv']} volumes raised {type(e).__name__}: {str(e)[:160]}")],
                 "nontrivial": False, "outcome": f"raises:{type(e).__name__}"}
+    return evaluate(case, res, laws, vols, v0, v)
+
+
+def evaluate(case, res, laws, vols, v0, v):
+    """The per-call oracle: `res` is what interpolate_modes returned for the arguments described by `case`."""
+    method, order = case["mo"]
+    kind, degree = case["data"]
+    nq, npm = case["shape"]
+    nv = case["nv"]
+    viol = []
     try:
         w, g, h = (numpy.asarray(a, float) for a in res)
     except Exception as e:
@@ -227,6 +261,23 @@ def run_interp(case):
             "worst": worst, "exact": exact, "checked_slots": checked}
 
 
+def fresh_modules():
+    """Mode-B cases start from freshly executed modules, so that a history is exactly the listed sequence (what a
+    replay in a new process sees) and not whatever this worker ran before.  Order matters: calculator binds
+    interpolate_modes by name at import, plot.modes binds the calculator module."""
+    import importlib
+    try:
+        import cij.core.mode_gamma as mg
+        import cij.core.calculator as calc
+        import cij.plot.modes as pm
+        mg = importlib.reload(mg)
+        calc = importlib.reload(calc)
+        pm = importlib.reload(pm)
+    except Exception as e:
+        raise HarnessError(f"cannot (re)load the modules under test: {e!r}")
+    return mg, calc, pm
+
+
 # =========================================================================== plot cases
 
 class RecordingAxes:
@@ -250,15 +301,10 @@ class RecordingAxes:
 PLOT_QUANTITY = {0: "omega", 1: "gamma", 2: "vdgamma"}
 
 
-def run_plot(case):
-    n, iq = case["n"], case["iq"]
+def make_plot_duck(case, calc):
+    Calculator = calc.Calculator
     nq, npm = case["shape"]
     nv = case["nv"]
-    try:
-        from cij.core.calculator import Calculator
-        from cij.plot.modes import ModePlotter
-    except Exception as e:
-        raise HarnessError(f"cannot import the plotter: {e!r}")
     method, order, kind, degree = "lsq_poly", 3, "poly", 3        # shipped default interpolator; data it reproduces exactly
     inp, laws, vols, v0 = R.build_input(nv, nq, npm, kind, degree)
     v = R.v_grid(case["vkind"], vols, n=case.get("ntv", 201))
@@ -269,23 +315,29 @@ def run_plot(case):
         np=npm, nq=nq, nv=nv,
         config={"elast": {"settings": {"mode_gamma": {"interpolator": method, "order": order}}}},
     )
-    viol = []
     try:
         with numpy.errstate(all="ignore"):
             Calculator._interpolate_modes(duck)          # the real wiring builds freq_array and mode_gamma
     except Exception as e:
         raise HarnessError(f"Calculator._interpolate_modes on the duck failed: {e!r}")
-    ax = RecordingAxes()
-    try:
-        ModePlotter(duck).plot_modes(ax, n, iq)
-    except Exception as e:
-        return {"viol": [V(f"c11:plot:raises:{type(e).__name__}", f"plot_modes(ax, n={n}, iq={iq}) raised {e!r}")],
-                "nontrivial": False, "outcome": "plot-raises"}
-    plots = [c for c in ax.calls if c[0] == "plot"]
-    scatters = [c for c in ax.calls if c[0] == "scatter"]
+    return duck, inp, laws, vols, v0, v
+
+
+def check_plot_calls(calls, n, iq, case, inp, laws, v0, v, viol, tag=""):
+    """`calls` = what ONE plot_modes(ax, n, iq) call sent to the axes."""
+    nq, npm = case["shape"]
+    plots = [c for c in calls if c[0] == "plot"]
+    scatters = [c for c in calls if c[0] == "scatter"]
     ks = [k for k in range(npm) if not (iq == 0 and k < 3)]
+    sigs = [x_["sig"] for x_ in viol]
+
+    def add(sig, msg):
+        if sig not in sigs:
+            sigs.append(sig)
+            viol.append(V(sig, tag + msg))
+
     if len(plots) != len(ks):
-        viol.append(V("c11:plot:curve-count", f"n={n} iq={iq} shape {nq}x{npm}: {len(plots)} curves drawn, expected {len(ks)} (Gamma acoustic modes skipped)"))
+        add("c11:plot:curve-count", f"n={n} iq={iq} shape {nq}x{npm}: {len(plots)} curves drawn, expected {len(ks)} (Gamma acoustic modes skipped)")
     v_ang3 = v * R.BOHR_IN_ANGSTROM ** 3
 
     def quantities(q, m):
@@ -303,7 +355,7 @@ def run_plot(case):
     for call, k in zip(plots, ks):
         a = call[1]
         if len(a) < 2:
-            viol.append(V("c11:plot:call-shape", f"ax.plot called with {len(a)} positional arguments"))
+            add("c11:plot:call-shape", f"ax.plot called with {len(a)} positional arguments")
             continue
         x, y = numpy.asarray(a[0], float), numpy.asarray(a[1], float)
         qs = quantities(iq, k)
@@ -315,28 +367,226 @@ def run_plot(case):
                         if laws[q2][m2] is not None and (q2, m2) != (iq, k):
                             drawn += [f"{nm}-of-slot-{q2}-{m2}" for nm, ref in quantities(q2, m2).items() if matches(y, ref, nm)]
             what = drawn[0] if drawn else "other"
-            sig = f"c11:plot:n{n}-draws-{what}"
-            if sig not in [x_["sig"] for x_ in viol]:
-                viol.append(V(sig, f"plot_modes(ax, n={n}, iq={iq}), curve of mode {k}: y-data is {what} "
-                                   f"(y[0]={float(y.ravel()[0])!r}), expected {want} (={float(qs[want][0])!r}); "
-                                   f"mode_gamma is built as [V dgamma/dV, gamma, gamma^2] by Calculator._interpolate_modes"))
+            add(f"c11:plot:n{n}-draws-{what}",
+                f"plot_modes(ax, n={n}, iq={iq}), curve of mode {k}: y-data is {what} "
+                f"(y[0]={float(y.ravel()[0])!r}), expected {want} (={float(qs[want][0])!r}); "
+                f"mode_gamma is built as [V dgamma/dV, gamma, gamma^2] by Calculator._interpolate_modes")
         if x.shape != v.shape or not numpy.abs(x / v_ang3 - 1).max() <= 1e-6:
-            if "c11:plot:x-not-volume" not in [x_["sig"] for x_ in viol]:
-                viol.append(V("c11:plot:x-not-volume", f"n={n} iq={iq}: abscissa is not the fine volume grid in cubic angstrom (x[0]={x.ravel()[0]!r}, expected {v_ang3[0]!r})"))
+            add("c11:plot:x-not-volume", f"n={n} iq={iq}: abscissa is not the fine volume grid in cubic angstrom (x[0]={float(x.ravel()[0])!r}, expected {float(v_ang3[0])!r})")
     if n == 0:
         if len(scatters) != len(ks):
-            viol.append(V("c11:plot:scatter-count", f"n=0 iq={iq}: {len(scatters)} scatter sets, expected {len(ks)}"))
+            add("c11:plot:scatter-count", f"n=0 iq={iq}: {len(scatters)} scatter sets, expected {len(ks)}")
         for call, k in zip(scatters, ks):
             a = call[1]
             y = numpy.asarray(a[1], float) if len(a) > 1 else numpy.zeros(0)
             raw = numpy.array([vol.q_points[iq].modes[k] for vol in inp.volumes])
             if y.shape != raw.shape or not numpy.array_equal(y, raw):
-                if "c11:plot:scatter-wrong-data" not in [x_["sig"] for x_ in viol]:
-                    viol.append(V("c11:plot:scatter-wrong-data", f"n=0 iq={iq} mode {k}: scattered points are not the sampled frequencies of that mode"))
+                add("c11:plot:scatter-wrong-data", f"n=0 iq={iq} mode {k}: scattered points are not the sampled frequencies of that mode")
     elif scatters:
-        viol.append(V("c11:plot:scatter-on-derivative", f"n={n}: sampled frequencies scattered on a derivative plot"))
-    return {"viol": viol, "nontrivial": len(ks) > 0 and len(plots) > 0,
-            "outcome": f"plot-n{n}-ok" if not viol else viol[0]["sig"], "curves": len(plots)}
+        add("c11:plot:scatter-on-derivative", f"n={n}: sampled frequencies scattered on a derivative plot")
+    return len(plots), len(ks)
+
+
+def run_plot(case):
+    n, iq = case["n"], case["iq"]
+    _, calc, pm = fresh_modules()
+    ModePlotter = pm.ModePlotter
+    duck, inp, laws, vols, v0, v = make_plot_duck(case, calc)
+    viol = []
+    ax = RecordingAxes()
+    try:
+        ModePlotter(duck).plot_modes(ax, n, iq)
+    except Exception as e:
+        return {"viol": [V(f"c11:plot:raises:{type(e).__name__}", f"plot_modes(ax, n={n}, iq={iq}) raised {e!r}")],
+                "nontrivial": False, "outcome": "plot-raises"}
+    nplots, nks = check_plot_calls(ax.calls, n, iq, case, inp, laws, v0, v, viol)
+    return {"viol": viol, "nontrivial": nks > 0 and nplots > 0,
+            "outcome": f"plot-n{n}-ok" if not viol else viol[0]["sig"], "curves": nplots}
+
+
+def _snap_duck(duck):
+    return {"freq": duck.freq_array.copy(), "mg": [numpy.array(a, copy=True) for a in duck.mode_gamma],
+            "v": duck.v_array.copy(), "vq": duck.qha_calculator.v_array.copy(), "inp": snapshot_input(duck.qha_input),
+            "ids": (id(duck.freq_array), tuple(id(a) for a in duck.mode_gamma), id(duck.qha_input))}
+
+
+def run_plotseq(case):
+    """Mode B: a sequence of plot_modes(n, iq) calls on ONE plotter and ONE axes recorder."""
+    _, calc, pm = fresh_modules()
+    ModePlotter = pm.ModePlotter
+    duck, inp, laws, vols, v0, v = make_plot_duck(case, calc)
+    before = _snap_duck(duck)
+    viol = []
+    ax = RecordingAxes()
+    plotter = ModePlotter(duck)
+    drawn_total = 0
+    held = []                                  # (position, recorded y array, copy taken when it was drawn)
+    for pos, (n, iq) in enumerate(case["seq"]):
+        start = len(ax.calls)
+        try:
+            plotter.plot_modes(ax, n, iq)
+        except Exception as e:
+            viol.append(V(f"c11:plotseq:raises:{type(e).__name__}", f"call {pos} of {case['seq']}: plot_modes(ax, n={n}, iq={iq}) raised {e!r}"))
+            break
+        new = ax.calls[start:]
+        mine = []
+        nplots, nks = check_plot_calls(new, n, iq, case, inp, laws, v0, v, mine,
+                                       tag=f"call {pos} of the sequence {case['seq']} on one plotter: ")
+        for x_ in mine:                       # same failure classes as the single-call part, marked as history-dependent
+            x_["sig"] = x_["sig"].replace("c11:plot:", "c11:plotseq:")
+            if x_["sig"] not in [y_["sig"] for y_ in viol]:
+                viol.append(x_)
+        drawn_total += nplots
+        for c in new:
+            if c[0] == "plot" and len(c[1]) > 1:
+                held.append((pos, c[1][1], numpy.array(c[1][1], copy=True)))
+        for hpos, arr, cp in held:
+            if hpos < pos and not numpy.array_equal(numpy.asarray(arr), cp, equal_nan=True):
+                if "c11:plotseq:earlier-curve-changed" not in [y_["sig"] for y_ in viol]:
+                    viol.append(V("c11:plotseq:earlier-curve-changed", f"data drawn by call {hpos} changed after call {pos} of {case['seq']}"))
+    after = _snap_duck(duck)
+    changed = []
+    if not numpy.array_equal(before["freq"], after["freq"]):
+        changed.append("freq_array")
+    if len(before["mg"]) != len(after["mg"]) or any(not numpy.array_equal(a, b) for a, b in zip(before["mg"], after["mg"])):
+        changed.append("mode_gamma")
+    if not (numpy.array_equal(before["v"], after["v"]) and numpy.array_equal(before["vq"], after["vq"])):
+        changed.append("v_array")
+    if before["inp"] != after["inp"]:
+        changed.append("qha_input")
+    if before["ids"] != after["ids"]:
+        changed.append("object identity of the calculator's arrays")
+    if changed:
+        viol.append(V("c11:plotseq:calculator-modified", f"after the plot sequence {case['seq']} the calculator-like object differs in: {', '.join(changed)}"))
+    return {"viol": viol, "nontrivial": drawn_total > 0, "outcome": f"plotseq-len{len(case['seq'])}-ok" if not viol else viol[0]["sig"]}
+
+
+# =========================================================================== call histories (mode B)
+
+HIST_SHAPE, HIST_NV, HIST_NTV = [2, 6], 8, 201
+_X = {"nv": HIST_NV, "shape": HIST_SHAPE, "data": ["power", 0], "offset": 0}
+_Y = {"nv": HIST_NV, "shape": HIST_SHAPE, "data": ["power", 0], "offset": 12}            # same shapes, a disjoint set of laws
+_Z = {"nv": 6, "shape": [3, 3], "data": ["power", 0], "offset": 24, "vscale": R.ANG3_PER_BOHR3}
+HIST_OPS = OrderedDict([
+    # name: (object, content it must hold, vkind, method, order)
+    ("X-in-spl3", ("X", _X, "inside", "spline", 3)),
+    ("X-ex-spl3", ("X", _X, "extended", "spline", 3)),
+    ("X-ex-lsq2", ("X", _X, "extended", "lsq_poly", 2)),
+    ("Y-ex-spl3", ("Y", _Y, "extended", "spline", 3)),
+    ("Z-ex-lsq2", ("Z", _Z, "extended", "lsq_poly", 2)),
+    ("X:=Y-ex-spl3", ("X", _Y, "extended", "spline", 3)),        # the SAME object X, frequencies replaced in place by Y's
+    ("tmp-tmp-ex-spl3", ("tmp", None, "extended", "spline", 3)),   # two inputs created and released one after the other
+])
+_TMP = [dict(_X, offset=36), dict(_X, offset=48)]
+
+
+def snapshot_input(qi):
+    """Deep, comparable copy of everything interpolate_modes may read."""
+    return (qi.nv, qi.nq, qi.np, qi.nm, qi.na,
+            tuple((tuple(c), float(w)) for c, w in qi.weights),
+            tuple((float(vd.pressure), float(vd.volume), float(vd.energy),
+                   tuple((tuple(qp.coord), tuple(float(x) for x in qp.modes)) for qp in vd.q_points))
+                  for vd in qi.volumes))
+
+
+def _fill_in_place(qi, plain):
+    """Overwrite the frequencies held by the (immutable NamedTuple, mutable lists) object qi with `plain`'s."""
+    for vd, pv in zip(qi.volumes, plain.volumes):
+        for qp, pq in zip(vd.q_points, pv.q_points):
+            qp.modes[:] = list(pq.modes)
+
+
+def run_history(case):
+    interpolate_modes = fresh_modules()[0].interpolate_modes
+    seq = case["seq"]
+    viol, sigs = [], set()
+
+    def add(sig, msg):
+        if sig not in sigs:
+            sigs.add(sig)
+            viol.append(V(sig, f"history {seq}: " + msg))
+
+    objs, content = {}, {}            # long-lived input objects by name, and the content spec each currently holds
+    held = []                         # (position, name, array, copy) of everything handed out so far
+    checked = 0
+    reuse_seen = False
+
+    def one_call(pos, label, qi, spec, vkind, method, order):
+        nonlocal checked
+        c = dict(spec, vkind=vkind, mo=[method, order], ntv=HIST_NTV)
+        plain, laws, vols, v0, v = build(c)
+        if snapshot_input(qi) != snapshot_input(real_input(plain)):
+            raise HarnessError(f"history harness: object for {label} does not hold the intended content")
+        before = snapshot_input(qi)
+        v_in = v.copy()
+        try:
+            with numpy.errstate(all="ignore"):
+                res = interpolate_modes(qi, v_in, method=method, order=order)
+        except Exception as e:
+            add(f"c11:history:raises:{type(e).__name__}", f"call {pos} ({label}) raised {type(e).__name__}: {str(e)[:120]}")
+            return
+        if snapshot_input(qi) != before:
+            add("c11:history:input-modified", f"call {pos} ({label}) changed its qha_input argument in place")
+        if not numpy.array_equal(v_in, v):
+            add("c11:history:v_array-modified", f"call {pos} ({label}) changed its v_array argument in place")
+        # results handed out earlier must not move
+        for hpos, hname, arr, cp in held:
+            if not numpy.array_equal(arr, cp, equal_nan=True):
+                add("c11:history:earlier-result-changed", f"{hname} returned by call {hpos} changed when call {pos} ({label}) was made")
+        r = evaluate(c, res, laws, vols, v0, v)
+        for x_ in r["viol"]:
+            parts = x_["sig"].split(":")
+            add("c11:history:" + ":".join(parts[1:]), f"call {pos} ({label}): " + x_["msg"])
+        checked += r.get("checked_slots", 0) if not r["viol"] else 0
+        try:
+            arrs = [a for a in res]
+        except Exception:
+            return
+        names = ("omega", "gamma", "V dgamma/dV")
+        for i in range(len(arrs)):
+            if not isinstance(arrs[i], numpy.ndarray):
+                continue
+            for j in range(i + 1, len(arrs)):
+                if isinstance(arrs[j], numpy.ndarray) and numpy.shares_memory(arrs[i], arrs[j]):
+                    add("c11:history:returned-arrays-alias-each-other", f"call {pos} ({label}): {names[i]} and {names[j]} share memory")
+            if numpy.shares_memory(arrs[i], v_in):
+                add("c11:history:result-aliases-input", f"call {pos} ({label}): {names[i]} shares memory with v_array")
+            for hpos, hname, arr, cp in held:
+                if numpy.shares_memory(arrs[i], arr):
+                    add("c11:history:result-aliases-earlier-result", f"call {pos} ({label}): {names[i]} shares memory with {hname} returned by call {hpos}")
+        # the caller owns what it was given: overwrite it, later calls must not care
+        for nm, a in zip(names, arrs):
+            if isinstance(a, numpy.ndarray) and a.flags.writeable:
+                a[...] = 12345.0
+                held.append((pos, nm, a, a.copy()))
+
+    for pos, op in enumerate(seq):
+        name, spec, vkind, method, order = HIST_OPS[op]
+        if name == "tmp":
+            # inputs created and released one after the other, alternating contents, until CPython hands out an
+            # address again for a DIFFERENT content (at least two, at most eight objects)
+            seen_ids = {}
+            for t in range(8):
+                tspec = _TMP[t % 2]
+                qi = real_input(build(dict(tspec, vkind=vkind, ntv=HIST_NTV))[0])
+                hit = seen_ids.get(id(qi))
+                seen_ids[id(qi)] = t % 2
+                one_call(pos, f"{op}#{t}", qi, tspec, vkind, method, order)
+                del qi
+                if hit is not None and hit != t % 2:
+                    reuse_seen = True
+                if t >= 1 and reuse_seen:
+                    break
+            continue
+        if name not in objs:
+            objs[name] = real_input(build(dict(spec, vkind=vkind, ntv=HIST_NTV))[0])
+            content[name] = spec
+        elif content[name] is not spec:
+            _fill_in_place(objs[name], build(dict(spec, vkind=vkind, ntv=HIST_NTV))[0])      # same object, new frequencies
+            content[name] = spec
+        one_call(pos, op, objs[name], spec, vkind, method, order)
+    return {"viol": viol, "nontrivial": checked > 0, "outcome": f"history-len{len(seq)}-ok" if not viol else viol[0]["sig"],
+            "address_reused": reuse_seen}
 
 
 def run_case(case):
@@ -345,6 +595,10 @@ def run_case(case):
         return run_interp(case)
     if part == "plot":
         return run_plot(case)
+    if part == "history":
+        return run_history(case)
+    if part == "plotseq":
+        return run_plotseq(case)
     raise HarnessError(f"unknown part {part!r}")
 
 
@@ -361,26 +615,66 @@ def plot_cases(thorough=False):
     return out
 
 
+def history_cases(max_len):
+    ops = list(HIST_OPS)
+    return [{"part": "history", "seq": list(seq)} for L in range(1, max_len + 1) for seq in itertools.product(ops, repeat=L)]
+
+
+def plotseq_cases(thorough=False):
+    out = []
+    for shape, lens in (([2, 6], (2, 3, 4) if thorough else (2, 3)), ([3, 3], (2, 3) if thorough else (2,))):
+        ops = [[n, iq] for n in (0, 1, 2) for iq in range(shape[0])]
+        for L in lens:
+            for seq in itertools.product(ops, repeat=L):
+                out.append({"part": "plotseq", "shape": shape, "nv": 8, "vkind": "extended", "seq": [list(x) for x in seq]})
+    return out
+
+
 def explore(ctx):
-    ctx.rule = ("mode A, full product (no bound) of: documented (method, order) pairs x n_V x data law x evaluation grid x "
-                "(n_q, n_p) shape, keeping order < n_V; every case runs the real interpolate_modes on an analytic table with a "
-                "distinct law per (q,m) and checks exactness (data in the method's function space), the two integral identities "
-                "tying gamma and V dgamma/dV to the returned omega, zero Gamma-acoustic slots, per-slot law identity and finiteness; "
-                "plus every (n, iq) of the mode plot on the real Calculator._interpolate_modes wiring. "
-                "Non-trivial = the call returned and at least one non-acoustic slot was compared (plot: at least one curve drawn)")
+    ctx.rule = ("mode A: full product (no bound) of documented (method, order) pairs x n_V x data law x evaluation grid x "
+                "(n_q, n_p) shape, keeping order < n_V, at the natural units; plus the full product of frequency scale x volume "
+                "unit x Gamma-acoustic residual spelling x shapes (incl. Gamma-only and n_p = 3) over "
+                + ("a reduced core (all method/order pairs, n_V = 8, three data laws, extended grid)" if ctx.quick else
+                   "the same complete core") +
+                "; every case runs the real interpolate_modes on an analytic table with a distinct law per (q,m) (branches of one "
+                "q-point cross between sampled volumes) and checks exactness (data in the method's function space), the two integral "
+                "identities tying gamma and V dgamma/dV to the returned omega, zero Gamma-acoustic slots, per-slot law identity and "
+                "finiteness; every (n, iq) of the mode plot on the real Calculator._interpolate_modes wiring. "
+                "Mode B: every sequence of length 1.." + ("3" if ctx.quick else "4") + " over 7 call descriptions of interpolate_modes inside one "
+                "process (per-call oracle, inputs unchanged, earlier results unchanged after the caller overwrote them, no aliasing) and every "
+                "sequence of plot_modes(n, iq) calls of length 2.." + ("3" if ctx.quick else "4") + " on one plotter and one axes. "
+                "Non-trivial = the call(s) returned and at least one non-acoustic slot was compared (plot: at least one curve drawn)")
     ctx.assumptions = [
         "scipy.interpolate classes are trusted as interpolators; what is checked is how mode_gamma.py drives them",
         "volumes are listed in decreasing order, as in every shipped input (the property does not speak about order)",
         "numpy.log/exp and composite trapezoid on 2001 points (error bound stated next to TOL_ID)",
         "plot abscissa: CODATA 2018 bohr radius, 1e-6 relative",
         "matplotlib is imported by cij.plot.modes but nothing is drawn: a recording axes object receives the calls",
+        "histories: worker processes have executed other cases before (module state is not reset between cases); a replay starts fresh",
+        "address re-use by CPython is attempted (create, call, release, create) and recorded, not guaranteed",
     ]
+    # the histories run first: their failures replay deterministically in a fresh process, so they are the ones reported first
+    hc = history_cases(3 if ctx.quick else 4)
+    hres = ctx.run(MOD, "run_case", hc, part="call-histories", states=len(hc), transitions=sum(len(c["seq"]) for c in hc))
+    qc = plotseq_cases(thorough=not ctx.quick)
+    ctx.run(MOD, "run_case", qc, part="plot-histories", states=len(qc), transitions=sum(len(c["seq"]) for c in qc))
+
     dims = OrderedDict((k, list(v)) for k, v in DIMS.items())
     if not ctx.quick:
         dims["nv"] = dims["nv"] + [5, 9, 10]
-        dims["shape"] = dims["shape"] + [[1, 6]]
     cases, results = ctx.run_lattice(MOD, "run_case", dims, None, part="interp-full-product",
                                      extra={"part": "interp"}, canon=canon)
+    sdims = OrderedDict((k, list(v)) for k, v in dims.items())
+    if ctx.quick:
+        sdims["nv"] = [8]
+        sdims["data"] = [["power", 0], ["morse", 0], ["poly", 3]]
+        sdims["vkind"] = ["extended"]
+    sdims["shape"] = sdims["shape"] + CORNER_SHAPES
+    for k, v_ in SCALE_DIMS.items():
+        sdims[k] = list(v_)
+    c2, r2 = ctx.run_lattice(MOD, "run_case", sdims, None, part="interp-scales-shapes",
+                             extra={"part": "interp"}, canon=canon)
+    cases, results = cases + c2, results + r2
     pc = plot_cases(thorough=not ctx.quick)
     ctx.run(MOD, "run_case", pc, part="plot")
 
@@ -404,15 +698,23 @@ def explore(ctx):
         if not any("inconsistent" in v_["sig"] for v_ in r.get("viol", [])):
             for k in worst_id:
                 worst_id[k] = max(worst_id[k], wst[k])
+    vols8 = R.volumes(8)
     ctx.notes["alphabets"] = {"method_order": len(MO), "n_V": dims["nv"], "data": DATA, "vkind": ["extended", "inside"],
-                              "shape": dims["shape"], "plot_n": [0, 1, 2], "grid_points": R.N_GRID,
-                              "admissible_method_order_nV": sum(1 for m, o in MO for nv in dims["nv"] if o < nv)}
+                              "shape": sdims["shape"], "plot_n": [0, 1, 2], "grid_points": R.N_GRID,
+                              "wscale": SCALE_DIMS["wscale"], "vscale": SCALE_DIMS["vscale"], "acoustic_input": {k: list(R.ACOUSTIC_VARIANTS[k]) for k in SCALE_DIMS["acoustic"]},
+                              "admissible_method_order_nV": sum(1 for m, o in MO for nv in dims["nv"] if o < nv),
+                              "history_ops": list(HIST_OPS), "history_max_len": 3 if ctx.quick else 4}
+    ctx.notes["crossing_branch_pairs_per_shape"] = {f"{a}x{b}": R.crossings(R.laws_for("power", 0, a, b), vols8, R.v_ref(vols8))
+                                                    for a, b in sdims["shape"]}
     ctx.notes["per_method"] = per_method
     ctx.notes["tolerances"] = {"omega_rel": RTOL_W, "gamma_abs": ATOL_G, "identity_scaled": TOL_ID}
     ctx.notes["largest_error_among_passing_exact_cases"] = worst_exact
     ctx.notes["largest_identity_residual_among_passing_cases"] = worst_id
     ctx.notes["largest_own_over_nearest_other_law_distance_generic_data"] = worst_mix     # nearest-law rule: must stay below 1
     ctx.notes["plot_cases"] = len(pc)
+    ctx.notes["histories"] = {"call_histories": len(hc), "plot_histories": len(qc),
+                              "histories_with_tmp_op": sum(1 for c in hc if "tmp-tmp-ex-spl3" in c["seq"]),
+                              "of_which_address_reuse_observed": sum(1 for r in hres if r.get("address_reused"))}
 
 
 def selftest():
